@@ -1,8 +1,11 @@
 (* C13 — same input, same output: everything printed from a map is a function of the map,
    not of its iteration order.  Theorems only. *)
 From Coq Require Import List NArith ZArith QArith Qcanon Permutation.
-From Okv Require Import Base.Maps Base.Dec Model.Amount Model.Book Model.Query Model.Render
-     Proofs.MapsSort Proofs.RenderProofs.
+From Okv Require Import Base.Maps Base.Dec Model.Amount Model.Book Model.Query Model.Render Model.OrderSpec
+     Model.PriceDb Model.PriceSpec Model.Convert
+     Proofs.MapsSort Proofs.RenderProofs Proofs.OrderMaps Proofs.OrderAmount Proofs.OrderBook Proofs.OrderReports
+     Proofs.PriceTable Proofs.OrderPrice Proofs.OrderConvert.
+From Okv Require Model.ImpConfig Model.ImpExtract Model.OrderImpSpec Proofs.OrderImport.
 Import ListNotations.
 
 (* the canonical (sorted) presentation of a duplicate-free map depends only on its contents *)
@@ -22,3 +25,319 @@ Theorem C13_balance_print_order_independent : forall b b' : balance,
   bal_equiv b b' -> render_balance b = render_balance b'.
 Proof. exact render_balance_equiv. Qed.
 Print Assumptions C13_balance_print_order_independent.
+
+(* ------------------------------------------------------------------------------------------
+   The book-keeping run itself.  Vocabulary: Model/OrderSpec.v.  `map_equiv m m'`: both
+   association lists are duplicate-free and agree through `get` (the same HashMap iterated in two
+   orders); `bal_equiv`: the same for the map of maps; `st_equiv`: balances, formats, stored
+   transactions (position by position, amounts up to map_equiv) and recorded price events (up to the
+   orientation of an implied exchange) are the same.  None of the theorems below assumes
+   reachability: `st_equiv s s'` already says every map involved is duplicate-free.
+   ------------------------------------------------------------------------------------------ *)
+
+(* map_equiv is exactly "same canonical (sorted) presentation", and the same as a permutation *)
+Theorem C13_map_equiv_iff_same_sorted_presentation : forall (V : Type) (m m' : amap V),
+  map_equiv m m' <-> NoDup (keys m) /\ NoDup (keys m') /\ sort_keys m = sort_keys m'.
+Proof. exact @map_equiv_iff_sorted. Qed.
+Print Assumptions C13_map_equiv_iff_same_sorted_presentation.
+
+Theorem C13_map_equiv_iff_permutation : forall (V : Type) (m m' : amap V),
+  map_equiv m m' <-> NoDup (keys m) /\ Permutation m m'.
+Proof. exact @map_equiv_iff_perm. Qed.
+Print Assumptions C13_map_equiv_iff_permutation.
+
+(* (2) every operation of Amount maps equivalent arguments to equivalent (or equal) results *)
+Theorem C13_amount_ops_respect_equiv : forall (a a' b b' : amount) (f f' : formats) k p c v,
+  map_equiv a a' -> map_equiv b b' -> map_equiv f f' ->
+  map_equiv (a_add a b) (a_add a' b') /\
+  map_equiv (a_sub a b) (a_sub a' b') /\
+  map_equiv (a_neg a) (a_neg a') /\
+  map_equiv (a_scale a k) (a_scale a' k) /\
+  map_equiv (a_div a k) (a_div a' k) /\
+  map_equiv (a_round f a) (a_round f' a') /\
+  map_equiv (a_remove_zeros a) (a_remove_zeros a') /\
+  map_equiv (a_add_pa a p) (a_add_pa a' p) /\
+  map_equiv (assert_balance a p) (assert_balance a' p) /\
+  map_equiv (fst (a_set_partial a c v)) (fst (a_set_partial a' c v)) /\
+  snd (a_set_partial a c v) = snd (a_set_partial a' c v) /\
+  a_get a c = a_get a' c /\
+  a_is_zero a = a_is_zero a' /\
+  a_is_absolute_zero a = a_is_absolute_zero a' /\
+  amount_to_pa a = amount_to_pa a' /\
+  amount_to_single a = amount_to_single a'.
+Proof. exact amount_ops_respect_equiv. Qed.
+Print Assumptions C13_amount_ops_respect_equiv.
+
+(* the evaluator: eval_e is a function of the expression alone and every amount it builds is a
+   duplicate-free map (related to itself); every operator and every conversion out of `Evaluated`
+   (to Amount, PostingAmount, SingleAmount: what `primitive eval`, posting amounts, costs and balance
+   assertions use) gives equal or equivalent results on equivalent values *)
+Theorem C13_eval_order_independent :
+  (forall e, res_equiv val_equiv (eval_e e) (eval_e e)) /\
+  (forall x x' y y', val_equiv x x' -> val_equiv y y' ->
+     res_equiv val_equiv (ev_add x y) (ev_add x' y') /\
+     res_equiv val_equiv (ev_sub x y) (ev_sub x' y') /\
+     res_equiv val_equiv (ev_mul x y) (ev_mul x' y') /\
+     res_equiv val_equiv (ev_div x y) (ev_div x' y')) /\
+  (forall x x', val_equiv x x' ->
+     val_equiv (ev_negate x) (ev_negate x') /\
+     ev_is_zero x = ev_is_zero x' /\
+     res_equiv map_equiv (ev_to_amount x) (ev_to_amount x') /\
+     ev_to_pa x = ev_to_pa x' /\
+     ev_to_single x = ev_to_single x').
+Proof. exact eval_order_independent. Qed.
+Print Assumptions C13_eval_order_independent.
+
+(* (3) check_balance: same verdict; accepted: postings filled in the same way, implied exchange the
+   same up to orientation; rejected: the same residual, printed identically; Panic only together *)
+Theorem C13_check_balance_respects_equiv : forall f f' d posts posts' r r',
+  map_equiv f f' -> Forall2 op_equiv posts posts' -> map_equiv r r' ->
+  out_equiv cb_equiv (check_balance f d posts r) (check_balance f' d posts' r') /\
+  (forall e e', check_balance f d posts r = Err e -> check_balance f' d posts' r' = Err e' ->
+                render_unbalanced e = render_unbalanced e' /\ render_err e = render_err e').
+Proof. exact check_balance_respects_equiv. Qed.
+Print Assumptions C13_check_balance_respects_equiv.
+
+(* (4) the simulation, function by function *)
+Theorem C13_balance_ops_respect_equiv : forall b b' a p x x',
+  bal_equiv b b' -> map_equiv x x' ->
+  map_equiv (bal_get b a) (bal_get b' a) /\
+  bal_equiv (fst (bal_add_pa b a p)) (fst (bal_add_pa b' a p)) /\
+  map_equiv (snd (bal_add_pa b a p)) (snd (bal_add_pa b' a p)) /\
+  bal_equiv (bal_add_amount b a x) (bal_add_amount b' a x') /\
+  out_equiv sp_equiv (bal_set_partial b a p) (bal_set_partial b' a p).
+Proof. exact balance_ops_respect_equiv. Qed.
+Print Assumptions C13_balance_ops_respect_equiv.
+
+Theorem C13_process_posting_respects_equiv : forall b b' date i p,
+  bal_equiv b b' -> out_equiv pp_equiv (process_posting b date i p) (process_posting b' date i p).
+Proof. exact process_posting_equiv. Qed.
+Print Assumptions C13_process_posting_respects_equiv.
+
+Theorem C13_loop_step_respects_equiv : forall date acc acc' ip,
+  out_equiv loop_equiv acc acc' -> out_equiv loop_equiv (loop_step date acc ip) (loop_step date acc' ip).
+Proof. exact loop_step_equiv. Qed.
+Print Assumptions C13_loop_step_respects_equiv.
+
+Theorem C13_add_transaction_respects_equiv : forall s s' t,
+  st_equiv s s' -> out_equiv st_equiv (add_transaction s t) (add_transaction s' t).
+Proof. exact add_transaction_equiv. Qed.
+Print Assumptions C13_add_transaction_respects_equiv.
+
+(* both runs fail with the same error (same kind, same indices, amount payloads equivalent, hence the
+   same text: C13_error_text_order_independent), or both panic, or both succeed in equivalent states *)
+Theorem C13_process_entry_respects_equiv : forall s s' e,
+  st_equiv s s' -> out_equiv st_equiv (process_entry s e) (process_entry s' e).
+Proof. exact process_entry_equiv. Qed.
+Print Assumptions C13_process_entry_respects_equiv.
+
+(* ... and so for any list of entries: same index of the failing entry, equivalent outcome *)
+Theorem C13_process_order_independent : forall es i s s',
+  st_equiv s s' -> run_equiv (process_from i s es) (process_from i s' es).
+Proof. exact process_from_equiv. Qed.
+Print Assumptions C13_process_order_independent.
+
+(* the iteration orders may change after every entry (run_any_order replaces the state by an
+   arbitrary equivalent one each time): all such runs over the same entries are equivalent, and
+   the model's own run `process_from` is one of them *)
+Theorem C13_run_any_order_deterministic : forall es i s s' r r',
+  st_equiv s s' -> run_any_order i s es r -> run_any_order i s' es r' -> run_equiv r r'.
+Proof. exact run_any_order_det. Qed.
+Print Assumptions C13_run_any_order_deterministic.
+
+Theorem C13_model_run_is_a_run : forall es i s,
+  st_equiv s s -> run_any_order i s es (process_from i s es).
+Proof. exact process_from_is_run. Qed.
+Print Assumptions C13_model_run_is_a_run.
+
+(* st_equiv is symmetric and transitive, holds of the initial state, and of every reachable state
+   with itself (all maps of a reachable state are duplicate-free) *)
+Theorem C13_state_equivalence :
+  (forall s s', st_equiv s s' -> st_equiv s' s) /\
+  (forall s1 s2 s3, st_equiv s1 s2 -> st_equiv s2 s3 -> st_equiv s1 s3) /\
+  st_equiv bstate0 bstate0 /\
+  (forall es s n, process es = (Ok s, n) -> st_equiv s s).
+Proof. exact st_equiv_equivalence. Qed.
+Print Assumptions C13_state_equivalence.
+
+(* stdout of `balance` (any date range) and `register` (any account filter) *)
+Theorem C13_reports_order_independent : forall s s', st_equiv s s' ->
+  (forall st en, render_balance (balance_report s st en) = render_balance (balance_report s' st en)) /\
+  render_register (all_postings s) = render_register (all_postings s') /\
+  (forall flt, render_register (postings_of s flt) = render_register (postings_of s' flt)).
+Proof. exact reports_order_independent. Qed.
+Print Assumptions C13_reports_order_independent.
+
+(* the text of an error, and of a failing run (printed error + index of the entry) *)
+Theorem C13_error_text_order_independent :
+  (forall e e', err_equiv e e' -> render_err e = render_err e' /\ render_unbalanced e = render_unbalanced e') /\
+  (forall r r', run_equiv r r' -> stderr_of r = stderr_of r').
+Proof. exact error_text_order_independent. Qed.
+Print Assumptions C13_error_text_order_independent.
+
+(* composed: any two runs over the same entries, whatever the iteration orders were along the way,
+   stop at the same entry with the same printed error, or end in states printing the same reports *)
+Theorem C13_run_deterministic : forall es i s s' r r',
+  st_equiv s s' -> run_any_order i s es r -> run_any_order i s' es r' ->
+  snd r = snd r' /\ stderr_of r = stderr_of r' /\
+  match fst r, fst r' with
+  | Ok f, Ok f' => st_equiv f f' /\
+                   (forall st en, stdout_balance f st en = stdout_balance f' st en) /\
+                   (forall flt, stdout_register f flt = stdout_register f' flt)
+  | Err _, Err _ => True
+  | Panic, Panic => True
+  | _, _ => False
+  end.
+Proof. exact runs_print_the_same. Qed.
+Print Assumptions C13_run_deterministic.
+
+(* the hypotheses are satisfiable non-trivially: a reachable state s and a differently ordered s'
+   (s <> s') that are equivalent; one more transaction leads to different, equivalent states *)
+Theorem C13_equivalent_states_that_differ_exist :
+  exists es s s' f f' n,
+    process es = (Ok s, n) /\ s <> s' /\ st_equiv s s' /\
+    (exists e, process_from n s [e] = (Ok f, S n) /\ process_from n s' [e] = (Ok f', S n)) /\
+    f <> f' /\ st_equiv f f'.
+Proof. exact examples_exist. Qed.
+Print Assumptions C13_equivalent_states_that_differ_exist.
+
+(* ------------------------------------------------------------------------------------------
+   (5) conversion rates.  `rec_equiv recs recs'`: the two-level record map of the price repository
+   in two iteration orders.  `choose` is the pop order of the BinaryHeap (any function), `fuel` the
+   iteration bound.  best_rates (Model/PriceSpec.v) lists the rates of all optimal chains (least
+   Distance); tie_free says they all agree.  A genuine tie (two optimal chains, different rates) is
+   the one case where the answer depended on iteration order (F19, fixed in /repo 3ba7cad by
+   visiting neighbours in commodity order); outside it the answer never depended on any order.
+   ------------------------------------------------------------------------------------------ *)
+Theorem C13_price_table_rate_determined_without_ties :
+  forall recs recs' date target c r0 choose choose' fuel fuel' t t',
+  rec_equiv recs recs' -> c <> target ->
+  best_rates (out_edges recs date) (length (rec_comms recs)) target c = [r0] ->
+  price_table fuel choose recs target date = PTDone t ->
+  price_table fuel' choose' recs' target date = PTDone t' ->
+  exists d, get c t = Some (d, r0) /\ get c t' = Some (d, r0).
+Proof. exact table_rate_singleton. Qed.
+Print Assumptions C13_price_table_rate_determined_without_ties.
+
+(* more generally: same label (distance and rate), or no label in both *)
+Theorem C13_price_table_label_determined_unless_tied :
+  forall recs recs' date target c choose choose' fuel fuel' t t',
+  rec_equiv recs recs' -> c <> target -> tie_free recs date target c ->
+  price_table fuel choose recs target date = PTDone t ->
+  price_table fuel' choose' recs' target date = PTDone t' ->
+  get c t = get c t'.
+Proof. exact table_determined_without_ties. Qed.
+Print Assumptions C13_price_table_label_determined_unless_tied.
+
+(* so converting one commodity gives the same value, or the same RateNotFound *)
+Theorem C13_convert_single_determined_unless_tied :
+  forall recs recs' date target c v choose choose' fuel fuel' t t',
+  rec_equiv recs recs' -> (c <> target -> tie_free recs date target c) ->
+  price_table fuel choose recs target date = PTDone t ->
+  price_table fuel' choose' recs' target date = PTDone t' ->
+  convert_single fuel choose recs c v target date = convert_single fuel' choose' recs' c v target date.
+Proof. exact convert_single_determined. Qed.
+Print Assumptions C13_convert_single_determined_unless_tied.
+
+(* the repositories built from equivalent event lists (an implied exchange recorded as (x, y) or as
+   (y, x)) and the same price DB hold the same records *)
+Theorem C13_repository_order_independent : forall evs evs' db,
+  Forall2 ev_equiv evs evs' -> rec_equiv (repository evs db) (repository evs' db).
+Proof. exact repository_equiv. Qed.
+Print Assumptions C13_repository_order_independent.
+
+(* `balance -X` / `balance --historical -X` / date ranges (Ledger::balance, Model/Convert.v) when the
+   two sides convert single commodities alike: both fail, or both succeed with equivalent balances
+   (conv_rel).  Which missing rate a failure names is NOT determined: see the two _refuted theorems *)
+Theorem C13_balance_query_respects_equiv :
+  forall fuel fuel' choose choose' recs recs',
+  (forall c v target date,
+     convert_single fuel choose recs c v target date = convert_single fuel' choose' recs' c v target date) ->
+  forall s s' cv st en, st_equiv s s' ->
+  conv_rel bal_equiv (balance_query fuel choose recs s cv st en) (balance_query fuel' choose' recs' s' cv st en).
+Proof. exact balance_query_equiv. Qed.
+Print Assumptions C13_balance_query_respects_equiv.
+
+(* Ledger::eval with an exchange commodity *)
+Theorem C13_eval_exchange_respects_equiv :
+  forall fuel fuel' choose choose' recs recs',
+  (forall c v target date,
+     convert_single fuel choose recs c v target date = convert_single fuel' choose' recs' c v target date) ->
+  forall a a' exchange date, map_equiv a a' ->
+  conv_rel map_equiv (eval_exchange fuel choose recs a exchange date) (eval_exchange fuel' choose' recs' a' exchange date).
+Proof. exact eval_exchange_equiv. Qed.
+Print Assumptions C13_eval_exchange_respects_equiv.
+
+(* end to end: equivalent book-keeping states, each with the repository built from its own events,
+   any heap orders, sufficient fuel, no tied chains: the converted report succeeds in both or in
+   neither, and prints the same lines *)
+Theorem C13_balance_exchange_order_independent_unless_tied :
+  forall s s' db fuel fuel' choose choose' cv st en,
+  st_equiv s s' ->
+  (forall c target date, c <> target -> tie_free (repository (s_events s) db) date target c) ->
+  (forall target date, exists t, price_table fuel choose (repository (s_events s) db) target date = PTDone t) ->
+  (forall target date, exists t, price_table fuel' choose' (repository (s_events s') db) target date = PTDone t) ->
+  conv_rel bal_equiv (balance_query fuel choose (repository (s_events s) db) s cv st en)
+                     (balance_query fuel' choose' (repository (s_events s') db) s' cv st en).
+Proof. exact balance_exchange_equiv. Qed.
+Print Assumptions C13_balance_exchange_order_independent_unless_tied.
+
+Theorem C13_balance_exchange_stdout_order_independent_unless_tied :
+  forall s s' db fuel fuel' choose choose' cv st en b b',
+  st_equiv s s' ->
+  (forall c target date, c <> target -> tie_free (repository (s_events s) db) date target c) ->
+  (forall target date, exists t, price_table fuel choose (repository (s_events s) db) target date = PTDone t) ->
+  (forall target date, exists t, price_table fuel' choose' (repository (s_events s') db) target date = PTDone t) ->
+  balance_query fuel choose (repository (s_events s) db) s cv st en = COk b ->
+  balance_query fuel' choose' (repository (s_events s') db) s' cv st en = COk b' ->
+  render_balance b = render_balance b'.
+Proof. exact balance_exchange_stdout. Qed.
+Print Assumptions C13_balance_exchange_stdout_order_independent_unless_tied.
+
+(* REFUTED (finding F21, reproduced on the okane binary: `balance -X USD` over a ledger with several
+   accounts holding unconvertible commodities prints a different "commodity rate .. not found" from
+   run to run): Ledger::balance converts the accounts in HashMap order (query.rs
+   `for (account, original_amount) in balance.iter()`) and stops at the first failure, so the error
+   of convert_accounts is not a function of the balance's contents *)
+Theorem C13_convert_accounts_error_order_independent_refuted :
+  exists fuel choose recs target now b b',
+    bal_equiv b b' /\
+    convert_accounts fuel choose recs target now b [] <> convert_accounts fuel choose recs target now b' [].
+Proof. exact F21.convert_accounts_error_order_dependent. Qed.
+Print Assumptions C13_convert_accounts_error_order_independent_refuted.
+
+(* the same inside one amount (F20).  The code was repaired (/repo 170c38c converts in commodity
+   order); Model/PriceDb.v convert_amount still iterates in list order, so for the model the claim
+   is refuted; the repaired behaviour is `convert_amount` after `sort_keys`, below *)
+Theorem C13_convert_amount_error_order_independent_refuted_in_model :
+  exists fuel choose recs target date a a',
+    map_equiv a a' /\
+    convert_amount fuel choose recs a target date <> convert_amount fuel choose recs a' target date.
+Proof. exact F21.convert_amount_error_order_dependent. Qed.
+Print Assumptions C13_convert_amount_error_order_independent_refuted_in_model.
+
+(* iterating in key order makes both a function of the contents, errors included: what 170c38c does
+   for an amount, and what sorting the accounts in Ledger::balance would do for F21 *)
+Theorem C13_convert_in_key_order_deterministic : forall fuel choose recs,
+  (forall a a' target date, map_equiv a a' ->
+     convert_amount fuel choose recs (sort_keys a) target date = convert_amount fuel choose recs (sort_keys a') target date) /\
+  (forall b b' target now acc, bal_equiv b b' ->
+     convert_accounts fuel choose recs target now (canon_balance b) acc =
+     convert_accounts fuel choose recs target now (canon_balance b') acc).
+Proof. exact convert_sorted_deterministic. Qed.
+Print Assumptions C13_convert_in_key_order_deterministic.
+
+(* (5) import rules.  The entries of a FieldMatcher (a HashMap from field to pattern, so the fields
+   are distinct) are applied in list order, each seeing the fragment left by the previous ones.  For
+   matchers that behave like CsvMatcher (csv_like, Model/OrderImpSpec.v: only the payee matcher reads
+   or writes the fragment) every order gives the same result.  For the other importers the order
+   matters (Proofs/OrderImport.v, order_matters_without_csv_like), which is why the code now sorts
+   the fields (/repo cce0c70). *)
+Theorem C13_and_matcher_order_independent_csv :
+  forall (P R : Type)
+         (matches : ImpConfig.rewrite_field * P -> R -> ImpExtract.frag -> option ImpExtract.captures),
+  OrderImpSpec.csv_like matches ->
+  forall ms ms', Permutation ms ms' -> NoDup (map fst ms) ->
+  forall f e, ImpExtract.and_extract matches ms f e = ImpExtract.and_extract matches ms' f e.
+Proof. exact @OrderImport.and_extract_perm. Qed.
+Print Assumptions C13_and_matcher_order_independent_csv.
